@@ -3,6 +3,7 @@ package k2
 import (
 	"fmt"
 	"go/types"
+	"strings"
 
 	"gvh/internal/rng"
 	"gvh/internal/sx"
@@ -160,6 +161,7 @@ func (g *ValGen) val(t types.Type, depth int) *sx.Node {
 		}
 		out := sx.H("mp", sx.A(l))
 		seen := map[string]bool{}
+		hasPoison := false
 		for i := 0; i < n; i++ {
 			save := g.Mode
 			if g.Mode == 0 {
@@ -171,7 +173,15 @@ func (g *ValGen) val(t types.Type, depth int) *sx.Node {
 				continue
 			}
 			seen[k.String()] = true
-			out.Add(sx.H("e", k, g.val(u.Elem(), depth+1)))
+			v := g.val(u.Elem(), depth+1)
+			// Go's map iteration order decides which failing entry surfaces first: at most one poisoned entry per map
+			if poisoned(k) || poisoned(v) {
+				if hasPoison {
+					continue
+				}
+				hasPoison = true
+			}
+			out.Add(sx.H("e", k, v))
 		}
 		return out
 	case *types.Struct:
@@ -182,4 +192,9 @@ func (g *ValGen) val(t types.Type, depth int) *sx.Node {
 		return out
 	}
 	return sx.A("nil")
+}
+
+func poisoned(n *sx.Node) bool {
+	s := n.String()
+	return strings.Contains(s, "\"13\"") || strings.Contains(s, "\"poison\"")
 }
